@@ -36,6 +36,24 @@ def cases(rng, tier):
         mode = "five" if i % 2 else "single"
         c = rvgen.sim_case(rng, mode, hazard=True, trace=25, run=300, dprob=0.6, iprob=0.5, suite="sim-insp")
         yield with_insp(rng, c, "sim.insp", 13)
+    # a small data cache under pressure: loads rotate over assoc+1 blocks of ONE set whose words are all listed in the
+    # memory table; every getter after every step — a getter that touches the replacement state changes a later victim
+    for i in range(40 if tier == "quick" else 800):
+        mode = "five" if i % 2 else "single"
+        pol = rng.choice(["lru", "plru"])
+        assoc = rng.choice([2, 3, 4] if pol == "lru" else [2, 4])
+        bb = rng.choice([0, 1])
+        stride = 4 << bb                                   # index bits 0: every block maps to the one set
+        blocks = [rvgen.DATA + k * stride for k in range(assoc + 1)]
+        prog = [rvgen.tok(rng.choice(["lw", "lw", "lbu", "sw"]), 5 + j % 3, 2, 5, rng.choice(blocks) - rvgen.DATA) for j in range(rng.choice([8, 11, 14]))]
+        prog = [t if not t.startswith("sw") else rvgen.tok("sw", 0, 2, 5, int(t.split(",")[4])) for t in prog]
+        dspec = f"{rng.choice(['wb', 'wt'])},{pol},0,{bb},{assoc},{rng.choice([0, 3])}"
+        lines = [f"sim.new {mode} 1 {dspec} -", "sim.prog " + " ".join(prog), f"sim.reg 2 {rvgen.DATA}", "sim.reg 5 77"]
+        lines += [f"sim.poke 32 {a} {1000 + a % 97}" for a in blocks]
+        lines.append("sim.snap")
+        for _ in range(len(prog) + (6 if mode == "five" else 1)):
+            lines += ["sim.step", f"sim.insp {(1 << 13) - 1}", "sim.snap"]
+        yield Case("sim-insp-dcache", lines, None, {"mode": mode})
     for i in range(100 if tier == "quick" else 2000):
         c = toygen.image_case(rng, toygen.mixed_calls if i % 2 else toygen.step_only, max_steps=25, suite="toy-insp")
         yield with_insp(rng, c, "toy.insp", 6)
